@@ -227,13 +227,18 @@ class _FilePersistence(_ConcretePersistence):
         with open(filename, "w"):
             pass
 
+    # The data file is read with errors="replace": an interrupted write can end
+    # between the bytes of a multi-byte character (a benchmark name, the command line).
+    # Such a remainder is a damaged line like any other; it must not make the decoder
+    # raise and every later session end in a UnicodeDecodeError.
+
     def _read_start_time(self):
         if not os.path.exists(self._data_filename):
             self._start_time = None
             return
         try:
             # pylint: disable-next=unspecified-encoding
-            with open(self._data_filename, "r") as data_file:
+            with open(self._data_filename, "r", errors="replace") as data_file:
                 self._start_time = self._read_first_meta_block(data_file)
         except OSError as err:
             raise UIError("The data file %s could not be read. %s.\n"
@@ -265,14 +270,14 @@ class _FilePersistence(_ConcretePersistence):
                 target_dir = os.path.dirname(os.path.abspath(self._data_filename))
                 with NamedTemporaryFile("w", delete=False, dir=target_dir) as target:
                     # pylint: disable-next=unspecified-encoding
-                    with open(self._data_filename, "r") as data_file:
+                    with open(self._data_filename, "r", errors="replace") as data_file:
                         self._process_lines(data_file, current_runs, target)
                 # the temporary file needs to be closed, i.e., completely written,
                 # before it replaces the data file
                 os.replace(target.name, self._data_filename)
             else:
                 # pylint: disable-next=unspecified-encoding
-                with open(self._data_filename, "r") as data_file:
+                with open(self._data_filename, "r", errors="replace") as data_file:
                     self._process_lines(data_file, current_runs, None)
         except IOError:
             self.ui.debug_error_info("No data loaded, since %s does not exist.\n"
